@@ -12,6 +12,12 @@
 //        args  : s1 s2 s3 ab al bs               1-3 scalars | a bundle TSB{f0,f1} | a list TSL2 | bundle + scalar
 //                                                 (input channels: scalars one each; bundle / list two each, in order);
 //                                                 only the (res, args) pairs of k_pairs are instantiated
+//                cf cr cl cs cn xf sc            the body's inputs are CAPTURED outer ports (no declared argument; sc:
+//                                                 one declared scalar, then two captured): cf / cr two fields of one
+//                                                 outer TSB node (order f0,f1 / f1,f0), cl two elements of one outer TSL
+//                                                 node, cs the same field twice, cn one field each of two nodes, xf as cf
+//                                                 through context::scope / context::get; results ts b2 l3 (sc: b3);
+//                                                 style pass = the second captured port is the result
 //        style : node   result = the output of one body node (node-owned structure)
 //                sink   as node, after a (gated) sink on the first argument (the terminal is not child node 0)
 //                proj   the body node's output is TSB{h, r:R}; the sub-graph returns the field r (non-empty source path)
